@@ -59,6 +59,19 @@ theorem pollRound_ph (now : Nat) (h : Host) :
 theorem pollRound_reps (now : Nat) (h : Host) (r : Rep) (hr : r ∈ h.reps) : r ∈ (h.pollRound now).reps := by
   simp only [Host.pollRound]; split <;> simp [hr]
 
+theorem oneRound_frame (now : Nat) (h : Host) :
+    (h.oneRound now).start = h.start ∧ (h.oneRound now).cbeg = h.cbeg ∧ (h.oneRound now).conn = h.conn ∧
+    (h.oneRound now).intr = h.intr := by
+  simp only [Host.oneRound]; split <;> simp
+
+theorem oneRound_ph (now : Nat) (h : Host) :
+    ((h.oneRound now).ph = h.ph ∧ (h.oneRound now).res = h.res) ∨
+    ((h.oneRound now).ph = .finished ∧ (h.oneRound now).res = .done) := by
+  simp only [Host.oneRound]; split <;> simp
+
+theorem oneRound_reps (now : Nat) (h : Host) (r : Rep) (hr : r ∈ h.reps) : r ∈ (h.oneRound now).reps := by
+  simp only [Host.oneRound]; split <;> simp [hr]
+
 /-! ## the per-host invariant: phases, timestamps and the two deadlines -/
 
 structure HostInv (c : Cfg) (now wake : Nat) (h : Host) : Prop where
@@ -141,19 +154,21 @@ theorem hostInv_connEnd {c : Cfg} {sc : Script} {now wake : Nat} {h : Host} (hi 
       rename_i hc
       exact ⟨hi, Or.inr (Or.inr ⟨hc, hint⟩)⟩
 
-theorem hostInv_wake {c : Cfg} {sc : Script} {now wake : Nat} {h : Host} (hi : HostInv c now wake h)
+theorem hostInv_wakeCore {c : Cfg} {now wake : Nat} {h : Host} (hi : HostInv c now wake h)
     (hph : h.ph = .reading) (hw : wake ≤ now + WDOG_POLL) :
-    HostInv c now wake (hostStep c sc now h .wake) ∧
-    ((hostStep c sc now h .wake).ph = .reading ∨ (hostStep c sc now h .wake).ph = .finished) := by
-  -- a poll round on a reading host keeps the invariant
-  have round : ∀ h1 : Host, h1.ph = .reading → h1.intr = false → h1.conn = h.conn → h1.res = h.res →
+    HostInv c now wake (h.wakeCore c now) ∧
+    ((h.wakeCore c now).ph = .reading ∨ (h.wakeCore c now).ph = .finished) ∧ (h.wakeCore c now).intr = false := by
+  -- a poll round (all reads, or one pass) on a reading host keeps the invariant
+  have round : ∀ (g : Host → Host) (h1 : Host),
+      ((g h1).start = h1.start ∧ (g h1).cbeg = h1.cbeg ∧ (g h1).conn = h1.conn ∧ (g h1).intr = h1.intr) →
+      (((g h1).ph = h1.ph ∧ (g h1).res = h1.res) ∨ ((g h1).ph = .finished ∧ (g h1).res = .done)) →
+      (∀ r, r ∈ h1.reps → r ∈ (g h1).reps) →
+      h1.ph = .reading → h1.intr = false → h1.conn = h.conn → h1.res = h.res →
       h1.reps = h.reps → (0 < c.ut → wake ≤ h.conn + c.ut + WDOG_POLL) →
-      HostInv c now wake (h1.pollRound now) ∧
-      ((h1.pollRound now).ph = .reading ∨ (h1.pollRound now).ph = .finished) := by
-    intro h1 h1ph h1i h1c h1r h1reps hdl
-    have hf := pollRound_frame now h1
-    have hp := pollRound_ph now h1
-    refine ⟨?_, ?_⟩
+      HostInv c now wake (g h1) ∧
+      ((g h1).ph = .reading ∨ (g h1).ph = .finished) ∧ (g h1).intr = false := by
+    intro g h1 hf hp hreps h1ph h1i h1c h1r h1reps hdl
+    refine ⟨?_, ?_, by rw [hf.2.2.2, h1i]⟩
     · constructor
       · intro hh; rcases hp with hp | hp <;> rw [hp.1] at hh <;> simp [h1ph] at hh
       · intro hh; rcases hp with hp | hp <;> rw [hp.1] at hh <;> simp [h1ph] at hh
@@ -164,29 +179,55 @@ theorem hostInv_wake {c : Cfg} {sc : Script} {now wake : Nat} {h : Host} (hi : H
       · intro hh; rw [hf.2.2.2, h1i] at hh; cases hh
       · intro hh; rcases hp with hp | hp
         · rw [hp.2, h1r] at hh
-          exact pollRound_reps now h1 _ (by rw [h1reps]; exact hi.resRep hh)
+          exact hreps _ (by rw [h1reps]; exact hi.resRep hh)
         · rw [hp.2] at hh; cases hh
       · intro _; rw [hf.2.2.1, h1c]; exact hi.connLe hph
       · intro hh; rcases hp with hp | hp <;> rw [hp.1] at hh <;> simp [h1ph] at hh
     · rcases hp with hp | hp
       · left; rw [hp.1, h1ph]
       · right; exact hp.1
-  simp only [hostStep]
+  simp only [Host.wakeCore]
   split
   · rename_i hint
     split
     · -- EINTR with the command timeout expired: report, fail
-      refine ⟨?_, Or.inr rfl⟩
+      refine ⟨?_, Or.inr rfl, rfl⟩
       constructor <;> simp
     · rename_i hnt
       have hu := (hi.readIntr hph hint).1
       have hle : now ≤ h.conn + c.ut := by
         have : ¬ (h.conn + c.ut < now) := fun hc => hnt ⟨hu, hc⟩
         omega
-      exact round { h with intr := false } hph rfl rfl rfl rfl (fun _ => by omega)
+      exact round (Host.pollRound now) { h with intr := false } (pollRound_frame _ _) (pollRound_ph _ _)
+        (pollRound_reps _ _) hph rfl rfl rfl rfl (fun _ => by omega)
   · rename_i hint
     have hint : h.intr = false := by simpa using hint
-    exact round h hph hint rfl rfl rfl (fun hu => hi.readDl hph hint hu)
+    split
+    · exact round (Host.oneRound now) h (oneRound_frame _ _) (oneRound_ph _ _) (oneRound_reps _ _)
+        hph hint rfl rfl rfl (fun hu => hi.readDl hph hint hu)
+    · exact round (Host.pollRound now) h (pollRound_frame _ _) (pollRound_ph _ _) (pollRound_reps _ _)
+        hph hint rfl rfl rfl (fun hu => hi.readDl hph hint hu)
+
+theorem hostInv_selfTimeout {c : Cfg} {now wake : Nat} {h : Host} (hi : HostInv c now wake h) (hint : h.intr = false) :
+    HostInv c now wake (h.selfTimeout c now) ∧
+    ((h.selfTimeout c now).ph = h.ph ∨ (h.selfTimeout c now).ph = .finished) := by
+  simp only [Host.selfTimeout]
+  split
+  · refine ⟨?_, Or.inr rfl⟩
+    constructor <;> simp [hint]
+  · exact ⟨hi, Or.inl rfl⟩
+
+theorem hostInv_wake {c : Cfg} {sc : Script} {now wake : Nat} {h : Host} (hi : HostInv c now wake h)
+    (hph : h.ph = .reading) (hw : wake ≤ now + WDOG_POLL) :
+    HostInv c now wake (hostStep c sc now h .wake) ∧
+    ((hostStep c sc now h .wake).ph = .reading ∨ (hostStep c sc now h .wake).ph = .finished) := by
+  obtain ⟨h1, h2, h3⟩ := hostInv_wakeCore hi hph hw
+  obtain ⟨h4, h5⟩ := hostInv_selfTimeout h1 h3
+  refine ⟨h4, ?_⟩
+  simp only [hostStep]
+  rcases h5 with h5 | h5
+  · rw [h5]; exact h2
+  · exact Or.inr h5
 
 theorem killed_cases {c : Cfg} {now : Nat} {h : Host} (hk : killed c now h = true) :
     (h.ph = .connecting ∧ 0 < c.ct ∧ h.start + c.ct < now) ∨ (h.ph = .reading ∧ 0 < c.ut ∧ h.conn + c.ut < now) := by
